@@ -20,10 +20,19 @@ func createDynForEMAThroughputSampler(c *config.EMAThroughputSamplerConfig) *dyn
 	}
 	clusterSize := 1 // Will be updated by SetClusterSize if needed
 
+	// dynsampler-go refuses an AdjustmentInterval under a millisecond (its Start
+	// returns an error and leaves the sampler without its maps, which would
+	// panic on first use); validation accepts such values, so fall back to the
+	// default interval for them, as for an unset or negative one.
+	adjustmentInterval := time.Duration(c.AdjustmentInterval)
+	if adjustmentInterval < time.Millisecond {
+		adjustmentInterval = 0
+	}
+
 	dynsamplerInstance := &dynsampler.EMAThroughput{
 		GoalThroughputPerSec: c.GoalThroughputPerSec / clusterSize,
 		InitialSampleRate:    c.InitialSampleRate,
-		AdjustmentInterval:   max(time.Duration(c.AdjustmentInterval), 0), // 0 selects the default; a negative duration would panic in time.NewTicker
+		AdjustmentInterval:   adjustmentInterval,
 		Weight:               c.Weight,
 		AgeOutValue:          c.AgeOutValue,
 		BurstDetectionDelay:  c.BurstDetectionDelay,
